@@ -11,6 +11,9 @@ Profiles (the mix is recorded in the evidence):
   sv_rules   predicates whose rules create subgoals on the same instance (inherited tau), chains of depth <= 3
   rr_sched   Use facts with free times on one or several resources, through a global predicate for variable tau
   mixed      state variables and resources in one problem, activities that need both
+  sv_flawless / rr_flawless
+             clauses over start / end comparisons that no flaw is responsible for (see gen_flawless): they are decided only
+             after the flaw search has ended and then move atoms onto neighbours with which no ordering was ever decided
 """
 from fractions import Fraction
 
@@ -485,7 +488,93 @@ def gen_rr_sched(rng, with_sv=False):
     return "\n".join(lines) + "\n", meta
 
 
-PROFILES = [("sv_const", 0.2), ("rr_const", 0.2), ("sv_sched", 0.2), ("sv_rules", 0.12), ("rr_sched", 0.16), ("mixed", 0.12)]
+def gen_flawless(rng, kind):
+    """Clauses over start / end comparisons for which NO flaw is responsible (negated conjunctions, boolean variables defined
+    by comparisons and left unconstrained, implications written as !(p & !q)), on top of a small resource / state-variable
+    problem in which some atoms are free and early and one or two "anchors" sit later at a fixed time. The clauses are still
+    undecided when the flaw search ends; most are violated by the values the search leaves (free atoms as early as possible),
+    so deciding one comparison propagates another and shifts a free atom by a few units -- onto an anchor (or onto another
+    free atom) of the same instance with which no ordering was decided during the search. Clauses come in symmetric pairs
+    (whichever comparison is decided first, the other one moves an atom onto a neighbour), so the outcome does not hinge
+    on the iteration order of the theory's tables. kind: 'SV' | 'RR'."""
+    lines = []
+    meta = {"profile": "sv_flawless" if kind == "SV" else "rr_flawless", "flawless_clauses": 0}
+    n_inst = rng.choice([1, 2, 2])
+    if kind == "SV":
+        lines.append("class S : StateVariable {\n  predicate P() { }\n  predicate Q() { }\n}")
+        insts = ["s%d" % i for i in range(n_inst)]
+        for i in insts:
+            lines.append("S %s = new S();" % i)
+    else:
+        cap = Fraction(rng.choice([4, 5, 10]))
+        insts = ["r%d" % i for i in range(n_inst)]
+        for i in insts:
+            lines.append("ReusableResource %s = new ReusableResource(%s);" % (i, lit(cap)))
+    n_free = rng.randint(2, 3 + (1 if EXTRA else 0))
+    free, total = [], Fraction(0)
+    for k in range(n_free):
+        d = Fraction(rng.choice([2, 3, 4, 5]))
+        nm = "a%d" % k
+        inst = rng.choice(insts)
+        how = "fact" if (kind == "RR" or rng.random() < 0.6) else "goal"
+        if kind == "SV":
+            lines.append("%s %s = new %s.%s(duration:%s);" % (how, nm, inst, rng.choice(["P", "Q"]), lit(d)))
+        else:
+            amt = cap / 2 + rng.choice([Fraction(1, 2), 1, 1])      # any two of them exceed the capacity
+            lines.append("fact %s = new %s.Use(amount:%s, duration:%s);" % (nm, inst, lit(amt), lit(d)))
+        free.append((nm, d, inst))
+        total += d
+    if rng.random() < 0.5 and n_free >= 2:
+        lines.append("%s.end <= %s.start;" % (free[0][0], free[1][0]))
+    anchors = []
+    t = total + rng.choice([1, 2, 4])
+    for k in range(rng.choice([1, 2, 2, 2, 3])):
+        d = Fraction(rng.choice([6, 10, 14]))
+        nm = "b%d" % k
+        inst = insts[k % len(insts)]
+        if kind == "SV":
+            lines.append("fact %s = new %s.P(duration:%s);" % (nm, inst, lit(d)))
+        else:
+            lines.append("fact %s = new %s.Use(amount:%s, duration:%s);" % (nm, inst, lit(cap / 2 + 1), lit(d)))
+        lines.append("%s.start == %s;" % (nm, lit(t)))
+        anchors.append((nm, t, d, inst))
+        t += d + rng.choice([0, 1, 3])
+
+    def landing(x, dx):
+        """a bound k such that x.start > k puts x onto an anchor (preferably one on x's own instance)"""
+        own = [a for a in anchors if a[3] == x[2]] or anchors
+        b = rng.choice(own)
+        lo = max(Fraction(0), b[1] - dx + 1)
+        return lo + rng.choice([0, 1, 2]), b
+    for _ in range(rng.randint(1, 3)):
+        shape = rng.choice(["same", "pair", "pair", "impl", "impl", "order", "bool"])
+        x = rng.choice(free)
+        y = rng.choice([f for f in free if f is not x])
+        kx, bx = landing(x, x[1])
+        ky, by = landing(y, y[1])
+        if shape == "same":        # !(x <= k & x <= k'): decided in one order it moves x, in the other it is a conflict
+            lines.append("!((%s.start <= %s) & (%s.start <= %s));" % (x[0], lit(kx), x[0], lit(kx + 2)))
+        elif shape == "pair":      # symmetric: whichever is decided true first, the other atom moves onto an anchor
+            lines.append("!((%s.start <= %s) & (%s.start <= %s));" % (x[0], lit(kx), y[0], lit(ky)))
+        elif shape == "impl":      # x early -> y late, through boolean variables defined by the comparisons
+            n = meta["flawless_clauses"]
+            lines.append("bool p%d = %s.start <= %s;" % (n, x[0], lit(kx)))
+            lines.append("bool q%d = %s.start >= %s;" % (n, y[0], lit(ky + Fraction(1, 2))))
+            lines.append("!(p%d & !q%d);" % (n, n))
+        elif shape == "order":     # !(x before its anchor & y early)
+            lines.append("!((%s.end <= %s.start) & (%s.start <= %s));" % (x[0], bx[0], y[0], lit(ky)))
+        else:                      # a comparison named by a boolean variable and left unconstrained
+            lines.append("bool w%d = %s.start >= %s;" % (meta["flawless_clauses"], x[0], lit(kx)))
+        meta["flawless_clauses"] += 1
+        meta.setdefault("shapes", []).append(shape)
+    meta["atoms"] = n_free + len(anchors)
+    if rng.random() < 0.3:
+        lines.append("horizon <= %s;" % lit(t + total + 8))
+    return "\n".join(lines) + "\n", meta
+
+
+PROFILES = [("sv_const", 0.17), ("rr_const", 0.17), ("sv_sched", 0.17), ("sv_rules", 0.1), ("rr_sched", 0.14), ("mixed", 0.1),
+            ("sv_flawless", 0.08), ("rr_flawless", 0.07)]
 
 
 def gen_problem(rng, profile=None):
@@ -499,6 +588,10 @@ def gen_problem(rng, profile=None):
                 break
         else:
             profile = PROFILES[-1][0]
+    if profile == "sv_flawless":
+        return gen_flawless(rng, "SV")
+    if profile == "rr_flawless":
+        return gen_flawless(rng, "RR")
     if profile == "sv_const":
         return gen_sv_const(rng)
     if profile == "rr_const":
